@@ -109,8 +109,13 @@ def harnesses(tier, seed):
             by_kind.setdefault(ps[i][1].split("@")[0], []).append(i)
         chosen = []
         for k in sorted(by_kind):
-            chosen.append(rng.choice(by_kind[k]))
-        idxs = sorted(set(chosen))[:64]
+            cand = by_kind[k]
+            if "rename" in k or "reorder" in k or "drop" in k:
+                # prefer writers in which the affected named type is also used by reference
+                pref = [i for i in cand if ps[i][0] in ("ref_after_def", "ns_inherit")]
+                cand = pref or cand
+            chosen.append(rng.choice(cand))
+        idxs = sorted(set(chosen))[:96]
     hs = []
     for i in idxs:
         c = case(i, th)
